@@ -134,7 +134,8 @@ def run(ctx) -> None:
                             RA,
                             construct,
                             (
-                                f"occurrence-wide {c['form']} `{c['text'][:100]}`: every later occurrence of the directory's path inside the descendant's own path is rewritten too"
+                                (c.get("why") and f"{c['form']} `{c['text'][:100]}`: {c['why']}")
+                                or f"occurrence-wide {c['form']} `{c['text'][:100]}`: every later occurrence of the directory's path inside the descendant's own path is rewritten too"
                                 if not c["anchored"]
                                 else f"rewrite {c['form']} maps x={c['x']} a={c['a']} b={c['b']}; expected x={joined} a={walked} b={src_param}"
                             ),
@@ -199,6 +200,7 @@ VARIANTS = [
     dict(name="B topdown=False", expect="fire", rule="C14/generator-structure", edits=[(EV, "    for root, directories, filenames in os.walk(src_dir_path):  # type: ignore[type-var]", "    for root, directories, filenames in os.walk(src_dir_path, topdown=False):  # type: ignore[type-var]")]),
     dict(name="B moved generator walks the source", expect="fire", rule="C14/", edits=[(EV, "    for root, directories, filenames in os.walk(dest_dir_path):  # type: ignore[type-var]", "    for root, directories, filenames in os.walk(src_dir_path):  # type: ignore[type-var]")]),
     dict(name="B src/dest swapped in constructor", expect="fire", rule="C14/", edits=[(EV, "            yield FileMovedEvent(renamed_path, full_path, is_synthetic=True)", "            yield FileMovedEvent(full_path, renamed_path, is_synthetic=True)")]),
+    dict(name="B join + slice past one assumed separator", expect="fire", rule="C14/prefix-anchored-rewrite", edits=[(EV, _SL, 'renamed_path = os.path.join(src_dir_path, full_path[len(dest_dir_path) + 1 :]) if src_dir_path else ""')]),
     dict(name="E replace(a, b, 1)", expect="silent", edits=[(EV, _SL, 'renamed_path = full_path.replace(dest_dir_path, src_dir_path, 1) if src_dir_path else ""')]),
     dict(name="E removeprefix", expect="silent", edits=[(IC, "_move_to_path = inotify_event.src_path + _path[len(move_src_path) :]", "_move_to_path = inotify_event.src_path + _path.removeprefix(move_src_path)")]),
     dict(name="E rename locals", expect="silent", edits=[(EV, "            full_path = os.path.join(root, directory)  # type: ignore[call-overload]\n            yield DirCreatedEvent(full_path, is_synthetic=True)", "            p = os.path.join(root, directory)  # type: ignore[call-overload]\n            yield DirCreatedEvent(p, is_synthetic=True)")]),
